@@ -10,7 +10,7 @@ for d in seeded/${PAT}*/; do
   id=$(basename $d)
   [ -f $d/patch.diff ] || continue
   prop=$(python3 -c "import json;print(json.load(open('$d/meta.json'))['property'])")
-  line=$(tools/seedtest.sh $d/patch.diff $prop | tail -1)
+  line=$(tools/seedtest.sh "$(pwd)/${d%/}/patch.diff" $prop | tail -1)
   rc=$(echo "$line" | sed -n 's/.* rc=\([0-9]*\) .*/\1/p')
   nf=$(echo "$line" | grep -c 'no-failing-input-found')
   echo "$id check=$prop rc=$rc nofailinginput=$nf :: $(echo "$line" | cut -c1-200)" >> $OUT
